@@ -40,6 +40,8 @@ def type_express(t):
 
 
 def emit_express(schema):
+    if schema.get("text"):
+        return schema["text"]       # an imported (shipped) schema goes to the generator as its maintainers wrote it
     out = ["SCHEMA %s;" % schema["name"], ""]
     for td in schema["types"]:
         d = td["def"]
